@@ -1,7 +1,7 @@
 //! C16: the crate's `EncodeLike` table, observed by compile-time probes, against the model's
 //! decision procedure; and for declared pairs, values of `A` decoded as `B`.
 
-use crate::derived::TwinU32;
+use crate::derived::{Mixed, Named, TransCompact, TransEncodedAs, Transparent, TwinU32};
 use crate::modeled::{hex_or_dash, val_string, Modeled, G};
 use crate::Ctx;
 use core::marker::PhantomData;
@@ -194,6 +194,16 @@ pub fn like_stream(ctx: &mut Ctx) {
 	like_case!(ctx; Vec<u8>, Vec<Box<u8>> => Vec<u8>, false, |o| o.iter().map(|x| Box::new(*x)).collect::<Vec<_>>());
 	like_case!(ctx; Vec<u128>, Vec<&'static u128> => Vec<u128>, false, |o| o.iter().collect::<Vec<_>>());
 	like_case!(ctx; Vec<u16>, VecDeque<Arc<u16>> => VecDeque<u16>, false, |o| o.iter().map(|x| Arc::new(*x)).collect::<VecDeque<_>>());
+	// derived types and their holders (decoded through the derived `decode_into`)
+	like_case!(ctx; TransCompact, TransCompact => Box<TransCompact>, false, |o| o.clone());
+	like_case!(ctx; TransCompact, &'static TransCompact => Rc<TransCompact>, false, |o| o);
+	like_case!(ctx; TransCompact, Box<TransCompact> => Arc<TransCompact>, false, |o| Box::new(o.clone()));
+	like_case!(ctx; TransEncodedAs, TransEncodedAs => Box<TransEncodedAs>, false, |o| o.clone());
+	like_case!(ctx; [TransCompact; 2], [&'static TransCompact; 2] => [TransCompact; 2], false, |o| [&o[0], &o[1]]);
+	like_case!(ctx; Vec<TransCompact>, &'static [TransCompact] => Vec<Box<TransCompact>>, false, |o| &o[..]);
+	like_case!(ctx; Mixed, &'static Mixed => Box<Mixed>, false, |o| o);
+	like_case!(ctx; Named, Named => Arc<Named>, false, |o| o.clone());
+	like_case!(ctx; Transparent, &'static Transparent => Box<Transparent>, false, |o| o);
 	like_case!(ctx; Option<u32>, Option<&'static u32> => Option<u32>, false, |o| o.as_ref());
 	like_case!(ctx; Option<u32>, Option<Box<u32>> => Option<u32>, false, |o| o.map(Box::new));
 	like_case!(ctx; Result<u32, u8>, Result<&'static u32, &'static u8> => Result<u32, u8>, false, |o| o.as_ref());
